@@ -16,7 +16,7 @@ ASSUMPTIONS = [
 NSHARDS = {"quick": 32, "thorough": 64}
 BUDGET_S = {"quick": 200, "thorough": 1800}
 MIN_HITS = {
-    'quick': {"pair": 3000, "len_constraint": 150, "sig_token": 300, "pubkey_token": 300, "pkh_token": 300, "self": 20000, "criteria": 1500, "expect_match": 1000, "expect_nomatch": 1000},
+    'quick': {"pair": 3807, "len_constraint": 90, "sig_token": 160, "pubkey_token": 160, "pkh_token": 160, "self": 16852, "criteria": 10240, "expect_match": 1134, "expect_nomatch": 2600},
     'thorough': {"pair": 675855, "len_constraint": 108, "mixed": 115194, "sig_token": 30720, "pubkey_token": 30720, "pkh_token": 30720, "self": 80192, "criteria": 1536000},
 }
 PSEUDO = {251, 252, 253, 254}
